@@ -107,6 +107,75 @@ class Conc:
         return f(*args, **kwargs)
 
 
+def linear_abstraction(constraints):
+    """sound weakening for `unsat`: after normalising to sums of monomials every nonlinear monomial
+    (and every division by a non-constant) is replaced by a fresh real constant (the same monomial
+    always by the same constant).  If the weakened constraints are unsatisfiable, so are the
+    original ones; a `sat` answer of the weakened problem means nothing."""
+    fresh = {}
+    memo = {}
+
+    def key_of(factors):
+        return tuple(sorted(f.get_id() for f in factors))
+
+    def is_num(e):
+        return z3.is_rational_value(e) or z3.is_int_value(e) or z3.is_algebraic_value(e)
+
+    def rw(e):
+        i = e.get_id()
+        if i in memo:
+            return memo[i]
+        if e.num_args() == 0:
+            memo[i] = e
+            return e
+        k = e.decl().kind()
+        ch = [rw(c) for c in e.children()]
+        r = None
+        if k == z3.Z3_OP_MUL and not z3.is_bool(e):
+            nums = [c for c in ch if is_num(c)]
+            rest = []
+            for c in ch:
+                if is_num(c):
+                    continue
+                if z3.is_app(c) and c.decl().kind() == z3.Z3_OP_MUL:
+                    rest.extend(c.children())
+                else:
+                    rest.append(c)
+            if len(rest) >= 2:
+                kk = ("mul", key_of(rest), z3.is_int(e))
+                if kk not in fresh:
+                    fresh[kk] = (z3.Int if z3.is_int(e) else z3.Real)(f"mono!{len(fresh)}")
+                r = fresh[kk]
+                for nmb in nums:
+                    r = nmb * r
+        elif k == z3.Z3_OP_POWER and not is_num(ch[1]) or (k == z3.Z3_OP_POWER and not is_num(ch[0])):
+            kk = ("pow", (ch[0].get_id(), ch[1].get_id()), False)
+            if kk not in fresh:
+                fresh[kk] = z3.Real(f"mono!{len(fresh)}")
+            r = fresh[kk]
+        elif k in (z3.Z3_OP_DIV, z3.Z3_OP_IDIV, z3.Z3_OP_MOD, z3.Z3_OP_REM) and not is_num(ch[1]):
+            kk = ("div", (ch[0].get_id(), ch[1].get_id()), z3.is_int(e))
+            if kk not in fresh:
+                fresh[kk] = (z3.Int if z3.is_int(e) else z3.Real)(f"mono!{len(fresh)}")
+            r = fresh[kk]
+        if r is None:
+            if all(a.get_id() == b.get_id() for a, b in zip(ch, e.children())):
+                r = e
+            else:
+                r = e.decl()(*ch)
+        memo[i] = r
+        return r
+
+    import sys as _s
+
+    _s.setrecursionlimit(max(_s.getrecursionlimit(), 20000))
+    out = []
+    for c in constraints:
+        c2 = z3.simplify(c, som=True, mul_to_power=False, sort_sums=True)
+        out.append(rw(c2))
+    return out
+
+
 def model_assignment(mdl, symbols):
     """{name: python value} for all declared symbols under a z3 model"""
     out = {}
@@ -198,13 +267,38 @@ class Recorder:
                 return "unsat", None
             cons.append(sj.strip_tags(c))
         total = int(timeout_ms or self.timeout_ms)
-        plan = [
-            ("smt", lambda: z3.Tactic("smt").solver(), min(total, 15000)),
-            ("default", lambda: z3.Solver(), total),
-            ("nlsat", lambda: z3.Then("simplify", "purify-arith", "qfnra-nlsat").solver(), total),
-        ]
+        # escalating schedule: which strategy is fast depends on the query family (the core solver on
+        # bilinear beta*V equalities, the default strategy on the simulation inequalities)
+        mk = {
+            "smt": lambda: z3.Tactic("smt").solver(),
+            "default": lambda: z3.Solver(),
+            "nlsat": lambda: z3.Then("simplify", "purify-arith", "qfnra-nlsat").solver(),
+        }
+        first = getattr(self, "_winner", "smt")
+        second = "default" if first == "smt" else "smt"
+        plan = [(first, min(total, 3000)), (second, min(total, 8000)), ("linabs", min(total, 30000)), (first, min(total, 20000)), (second, total), ("nlsat", total)]
+        if first == "linabs":
+            plan = [("linabs", min(total, 30000)), ("smt", min(total, 3000)), ("default", min(total, 8000)), ("smt", min(total, 20000)), ("default", total), ("nlsat", total)]
+        plan = [(n, mk.get(n), to) for n, to in plan]
         r = "unknown"
         for name, mk, to in plan:
+            if name == "linabs":
+                # linear abstraction of nonlinear monomials: only `unsat` is meaningful
+                try:
+                    t = time.time()
+                    s = z3.Solver()
+                    s.set("timeout", to)
+                    s.add(linear_abstraction(cons))
+                    r2 = str(s.check())
+                    self.queries += 1
+                    self.solver_time += time.time() - t
+                    self.linabs = getattr(self, "linabs", 0) + (1 if r2 == "unsat" else 0)
+                    if r2 == "unsat":
+                        self._winner = "linabs"
+                        return "unsat", None
+                except z3.Z3Exception:
+                    pass
+                continue
             try:
                 s = mk()
                 s.set("timeout", to)
@@ -217,6 +311,8 @@ class Recorder:
                 self.solver_time += time.time() - t
             except z3.Z3Exception:
                 r = "unknown"
+            if r in ("unsat", "sat") and name != "nlsat":
+                self._winner = name
             if r == "unsat":
                 return r, None
             if r == "sat":
@@ -432,9 +528,6 @@ def replay_unit(fn, kwargs, prop, unit_name, obligation, values):
     import jax
 
     jax.config.update("jax_enable_x64", True)
-    import logging
-
-    logging.disable(logging.CRITICAL)
     kwargs = dict(kwargs)
     kwargs.pop("_timeout_ms", None)
     rec = Recorder(prop, unit_name)
@@ -448,9 +541,6 @@ def run_unit(fn, kwargs, prop, unit_name):
     import jax
 
     jax.config.update("jax_enable_x64", True)
-    import logging
-
-    logging.disable(logging.CRITICAL)
     rec = Recorder(prop, unit_name, timeout_ms=int(kwargs.pop("_timeout_ms", 60000)))
     fe = FunctionsEntered()
     try:
